@@ -57,9 +57,15 @@ Definition readonly_ops : list string :=
 
 Definition smem (x : string) (s : list string) : bool := existsb (String.eqb x) s.
 
+(* the writer's entry points: the document they are given (root 1) is an operand of serializing; their
+   receiver and options are C17's and C18's subject, not this property's *)
+Definition readonly_roots : list froot :=
+  [ ("writer.Writer.WriteStream", 1); ("writer.Writer.WriteStreamWithOptions", 1);
+    ("writer.Writer.WriteFile", 1); ("writer.Writer.WriteFileWithOptions", 1) ].
+
 (* must not be written: every operand of a read-only operation, and every operand of a mutator other than its receiver *)
 Definition protected_root (r : froot) : bool :=
-  (smem (fst r) readonly_ops || (smem (fst r) (map fst mutators) && negb (fmem r mutators)))%bool.
+  (smem (fst r) readonly_ops || fmem r readonly_roots || (smem (fst r) (map fst mutators) && negb (fmem r mutators)))%bool.
 
 Definition offenders_in (w : list froot) (roots : list froot) : list froot :=
   filter (fun r => (protected_root r && fmem r w)%bool) roots.
@@ -69,4 +75,4 @@ Definition offenders (ws : list (string * Z * string * string)) (cs : list (stri
 
 (* exported functions with operands that are in neither list *)
 Definition unclassified (roots : list froot) : list froot :=
-  filter (fun r => negb (smem (fst r) readonly_ops || smem (fst r) (map fst mutators))) roots.
+  filter (fun r => negb (smem (fst r) readonly_ops || fmem r readonly_roots || smem (fst r) (map fst mutators))) roots.
